@@ -327,3 +327,17 @@ B("c04-stop-word-group-renamed", ["C04"], "regexes.py", "rf'(?P<stop_word>{\"|\"
 N("c04-guard-is-none", ["C04"], "helpers.py", "        words, citation.index + 1, POST_LAW_CITATION_REGEX, strings_only=True\n    )\n    if not m:\n        return\n", "        words, citation.index + 1, POST_LAW_CITATION_REGEX, strings_only=True\n    )\n    if m is None:\n        return\n")
 N("c04-nested-guard", ["C04"], "find.py", "    if m:\n        antecedent_guess = m[\"antecedent\"]\n        volume = m[\"volume\"]\n        antecedent_length = m.span()[1] - m.span()[0]\n    else:\n        antecedent_length = 0\n",
   "    antecedent_length = 0\n    if m is not None:\n        antecedent_guess = m[\"antecedent\"]\n        volume = m[\"volume\"]\n        antecedent_length = m.span()[1] - m.span()[0]\n")
+
+# ------------------------------------------------------------------ C14
+P("seed-C14-1", ["C14"], "seeded/C14-1/patch.diff", rule="R-C14-7")
+P("seed-C14-2", ["C14"], "seeded/C14-2/patch.diff", rule="R-C14-6")
+B("c14-revert-handler", ["C14"], "tokenizers.py", "                    except hyperscan.error:\n", "                    except hyperscan.InvalidError:\n", rule="R-C14-4")
+B("c14-unchecked-rematch", ["C14"], "tokenizers.py", "                if m:\n                    yield extractor.get_token(m, offset=start)\n", "                yield extractor.get_token(m, offset=start)\n", rule="R-C14-1")
+B("c14-no-rematch", ["C14"], "tokenizers.py", "                m = extractor.compiled_regex.match(text[start:end])\n", "                m = re.match(\"(.*)\", text[start:end])\n", rule="R-C14-1")
+B("c14-key-without-flags", ["C14"], "tokenizers.py", "                    str(expressions).encode(\"utf8\") + str(flags).encode(\"utf8\")\n", "                    str(expressions).encode(\"utf8\")\n", rule="R-C14-6")
+B("c14-failed-load-keeps-stale-db", ["C14"], "tokenizers.py", "            if not hyperscan_db:\n                # No cache, so compile database.\n", "            if not hyperscan_db and not cache:\n                # No cache, so compile database.\n", rule="R-C14-4")
+B("c14-keep-misaligned-hits", ["C14"], "tokenizers.py", "            except UnicodeDecodeError:\n                # offsets will fail to decode for invalid regex matches\n                # that don't align with a unicode character\n                continue\n",
+  "            except UnicodeDecodeError:\n                str_offset += 1\n", rule="R-C14-7")
+B("c14-extractors-filtered-for-db", ["C14"], "tokenizers.py", "            expressions = [convert_regex(e.regex) for e in self.extractors]\n", "            expressions = [convert_regex(e.regex) for e in self.extractors if e.strings]\n", rule="R-C14-6")
+B("c14-section-sign-repeat", ["C14"], "tokenizers.py", "                r.replace(r\"§ \", r\"§§? ?\") for r in regex_templates\n", "                r.replace(r\"§ \", r\"§{1,2} ?\") for r in regex_templates\n", rule="R-C14-3")
+N("c14-handler-exception", ["C14"], "tokenizers.py", "                    except hyperscan.error:\n", "                    except Exception:\n")
